@@ -169,7 +169,14 @@ BigPal   == PalEdge(256, 256, 256, 61)
 DecTpl   == << PalTex2(17, 9, 256, 41, 42), PalTex2(16, 8, 40, 43, 44), PalTex2(8, 4, 4, 45, 46) >>
 MixedTpl == << PalTex2(8, 4, 4, 47, 48), PalTex2(16, 8, 256, 49, 50), PalTex2(1, 1, 2, 56, 57),
                PalTex2(9, 9, 40, 58, 59), PalTex2(3, 3, 255, 63, 64) >>
-NTpl == IF Quick THEN 10 ELSE 17
+\* ---- block alignment: the image is stored in whole blocks (CI8: 8 x 4 texels); padding COLUMNS exist when the
+\* width is no multiple of the block width, padding ROWS when the height is no multiple of the block height, and
+\* the two are dropped independently.  One image (at least) per class of the product, several block counts.
+AlignClass(w, h) == << w % CI8BlockW = 0, h % CI8BlockH = 0 >>
+AlignDims == << <<8, 4>>, <<8, 6>>, <<16, 3>>, <<5, 4>>, <<9, 8>>, <<9, 6>> >>
+AlignTpl  == Tup([i \in 1..Len(AlignDims) |-> PalTex2(AlignDims[i][1], AlignDims[i][2], IF i % 2 = 0 THEN 5 ELSE 256, 110 + i, 120 + 2 * i)])
+ASSUME { AlignClass(AlignDims[i][1], AlignDims[i][2]) : i \in 1..Len(AlignDims) } = BOOLEAN \X BOOLEAN
+NTpl == IF Quick THEN 11 ELSE 18
 ListTpl(vi) ==
   CASE vi = 1  -> <<>>
     [] vi = 2  -> <<P1>>
@@ -183,15 +190,17 @@ ListTpl(vi) ==
     [] vi = 8  -> MixedTpl
     [] vi = 9  -> EdgeTpl
     [] vi = 10 -> << BigPal, PalEdge(3, 2, 2, 62) >>
+    \* block alignment of the dimensions (CI8 block: 8 x 4): {width aligned, unaligned} x {height aligned, unaligned}
+    [] vi = 11 -> AlignTpl
     \* thorough
-    [] vi = 11 -> <<P4, P6>>
-    [] vi = 12 -> <<P5, P1, P3, P2>>
-    [] vi = 13 -> <<P6, P4, P3, P2, P1>>
-    [] vi = 14 -> <<P4, P4>>
-    [] vi = 15 -> Tup([i \in 1..6 |-> PalTex2(9, 5, 3, 80, 90 + i)])
-    [] vi = 16 -> Tup([i \in 1..5 |-> PalTex2(1, 1, 1, 5, 100 + 7 * i)])
+    [] vi = 12 -> <<P4, P6>>
+    [] vi = 13 -> <<P5, P1, P3, P2>>
+    [] vi = 14 -> <<P6, P4, P3, P2, P1>>
+    [] vi = 15 -> <<P4, P4>>
+    [] vi = 16 -> Tup([i \in 1..6 |-> PalTex2(9, 5, 3, 80, 90 + i)])
+    [] vi = 17 -> Tup([i \in 1..5 |-> PalTex2(1, 1, 1, 5, 100 + 7 * i)])
     \* palette lengths alternate: a stale palette of the right length two images back
-    [] vi = 17 -> << PalTex2(8, 4, 16, 24, 34), PalTex2(8, 4, 40, 25, 35), PalTex2(8, 4, 16, 26, 36), PalTex2(8, 4, 40, 27, 37) >>
+    [] vi = 18 -> << PalTex2(8, 4, 16, 24, 34), PalTex2(8, 4, 40, 25, 35), PalTex2(8, 4, 16, 26, 36), PalTex2(8, 4, 40, 27, 37) >>
 BigTpl == {10}
 
 \* ------------------------------------------------------------------ placements
@@ -307,5 +316,8 @@ Emit ==
                                          ELSE SumTo([i \in 1..Len(v) |->
                                                 Cardinality({ q \in 1..Len(v[i].payload) :
                                                   ~CI8InCrop(v[i].w, v[i].h, q - 1) /\ 2 * v[i].payload[q] + 2 > Len(v[i].pal) })], Len(v)),
+                             \* block-alignment classes <<width aligned, height aligned>> of the palette images
+                             align |-> IF c # "tpl" THEN <<>>
+                                       ELSE SetToSeq({ AlignClass(v[i].w, v[i].h) : i \in 1..Len(v) }),
                              reject_by |-> SetToSeq({ r \in Containers \ {c} : ChecksMagic(r) /\ ~MagicOK(r, f) })]))
 =============================================================================
